@@ -78,6 +78,14 @@ def cases(tier, seed):
         for b in B + A:
             progs.append((b.format(x='a', y='b'), 2))
         progs.append(('a.norm()', 1)); progs.append(('a.normalized()', 1)); progs.append(('a.sqrt()', 1))
+        # outside the supported list (a number on the LEFT of an operator other than * + -): the registered function may raise,
+        # but must never return another value than the plain function
+        for form in ('3 >> a', '2 @ a', '2 | a', '2 & a', '2 ^ a', '(2 >> a) + b', '3 @ (a * b)', '2 / a'):
+            progs.append(('LENIENT:' + form, 2 if 'b' in form else 1))
+        # coefficient access by a NON-canonical spelling of the blade
+        if d >= 2:
+            sw_ = names[3][:1] + names[3][1:][::-1]
+            progs.append((f'a.{sw_} * b', 2)); progs.append((f'b * a.{sw_} + a', 2))
         progs.append(('a.norm() + 0', 1)); progs.append(('a.normalized() * 1', 1))       # same, on mixed-grade operands (see below)
         # depth 2
         d2 = []
@@ -200,6 +208,9 @@ def run_case(desc, V):
     if desc['kind'] == 'multi':
         return _run_multi(desc, V)
     src, nargs = desc['src'], desc['nargs']
+    lenient = src.startswith('LENIENT:')
+    if lenient:
+        src = src[8:]
     name = 'f_' + format(abs(hash(src)) % (10 ** 8), 'd')
     claims = []
     domain = []
@@ -248,9 +259,12 @@ def run_case(desc, V):
     for mode in desc['modes']:
         r = results[mode]
         tag = 'register' if mode == 'plain' else 'register(symbolic=True)'
+        if isinstance(r, Exception) and lenient:
+            claims.append(Note(tag, 'raises for an unsupported form (allowed)'))
+            continue
         if isinstance(r, Exception):
             claims.append(Fail(f'{tag}:raises', f'{tag} of `{src}` raised {type(r).__name__}: {str(r)[:100]} but the plain function returns',
-                               fkey=f'program|{tag}|raises:{type(r).__name__}|{_feature(src)}'))
+                               fkey=f'program|{tag}|raises:{type(r).__name__}|{_feature(src).replace("-noncanonical-spelling", "")}'))
             continue
         try:
             got = _as_coeffs(r)
@@ -277,6 +291,10 @@ def _feature(src):
         feats.append('nested-registered')
     # one feature per key, in a fixed priority order, so that the set of possible keys does not
     # depend on which combinations a seed happens to sample
+    import re as _re
+    m = _re.search(r'\.e([0-9a-f]{2,})\b', src)
+    if m and list(m.group(1)) != sorted(m.group(1)):
+        return 'coefficient-access-noncanonical-spelling'
     for f in ('sqrt', 'norm', 'normalized', 'coefficient-access', 'negative-power', 'nested-registered'):
         if f in feats:
             return f
